@@ -22,7 +22,9 @@ claimed = {
  "C20": ("CFG reject-edge rules + fixed-width arithmetic rule", "§4 C20"),
  "C19": ("lockset / guarded-by analysis (interprocedural requires-summaries) + shared-map taint", "§4 C19"),
 }
-texts = json.load(open('/verif/scripts/manifest_texts.json')) if os.path.exists('/verif/scripts/manifest_texts.json') else {}
+desc = json.loads(subprocess.run(['/verif/bin/galaxycheck','-describe'],capture_output=True,text=True).stdout)
+texts = {i:{"text":"Static analysis (no execution) of the type-checked SSA program of /repo's working tree. "+d["explanation"]+" Level 'other': the decided parts are structural necessary conditions of the property (breaking one breaks the behaviour); the behavioural property as a whole is not decided.",
+            "note":"Trusted base: go/types, golang.org/x/tools v0.29.0 (go/packages, go/ssa, callgraph/vta in the thorough tier), the rule and guard tables in /verif/checker. Assumptions: "+"; ".join(d["assumptions"])+". Obligations that cannot be decided (unresolved anchor, unrecognised idiom, type error, analysis panic, failed engine self-test) fail the check."} for i,d in desc.items()}
 ids=[json.loads(l)['id'] for l in open('/verif/properties.jsonl')]
 na_reason = {
  "C16": "Semantic equivalence between the generated iptables/ipset program (under kernel matching semantics) and Kubernetes NetworkPolicy semantics for all clusters, policies and flows: needs a netfilter semantics and quantification over packets/label sets (symbolic or model-based reasoning, a different technique family). The only shape-of-code facts (pod chain ends in DROP, policy chains hold only ACCEPT lines) are far from the property and would be a brittle proxy; not claimed (DESIGN.md §6).",
@@ -35,7 +37,7 @@ for i in ids:
     checks.append({
       "property_id": i,
       "quick_cmd": "./bin/galaxycheck -prop %s -tier quick"%i,
-      "thorough_cmd": "./bin/galaxycheck -prop %s -tier thorough"%i,
+      "thorough_cmd": "python3 scripts/thorough.py %s"%i,
       "evidence_file": "evidence/%s.json"%i,
       "replay_cmd_template": "./bin/galaxycheck -explain {path}",
       "engine": "galaxycheck",
